@@ -18,7 +18,7 @@ TSAN_OPTIONS = ('halt_on_error=0:exitcode=66:second_deadlock_stack=1:history_siz
 
 class Job:
     def __init__(self, harness, mode, variant='asan', quick=1000, thorough=None, shards=(4, 16), params=None, batch=None,
-                 case_timeout=None, weight=1, floor=None, tag=None, tparams=None, leakcheck=True, tiers=('quick', 'thorough')):
+                 case_timeout=None, weight=1, floor=None, tag=None, tparams=None, leakcheck=True, tiers=('quick', 'thorough'), asan_extra=None):
         self.harness, self.mode, self.variant = harness, mode, variant
         self.cases = {'quick': quick, 'thorough': thorough if thorough is not None else quick * 20}
         self.shards = {'quick': shards[0], 'thorough': shards[1]} if isinstance(shards, tuple) else {'quick': shards, 'thorough': shards}
@@ -29,6 +29,7 @@ class Job:
         self.tag = tag or ('%s.%s' % (harness.split('_', 1)[0], mode))
         self.leakcheck = leakcheck
         self.tiers = tiers
+        self.asan_extra = asan_extra         # appended to ASAN_OPTIONS for this job (later keys win), e.g. a small allocation limit
 
 
 class FuzzJob:
@@ -228,10 +229,13 @@ def _run_task(job, tier, seed, shard, nshards, binpath, outdir, slots):
         cmd += ['--case-timeout', str(job.case_timeout)]
     if not job.leakcheck:
         cmd += ['--no-leakcheck']
+    env = variant_env(job.variant)
+    if getattr(job, 'asan_extra', None):
+        env['ASAN_OPTIONS'] += ':' + job.asan_extra
     slots.acquire(job.weight)
     t0 = time.time()
     try:
-        p = subprocess.run(cmd, stdout=subprocess.PIPE, stderr=subprocess.STDOUT, env=variant_env(job.variant), cwd=outdir)
+        p = subprocess.run(cmd, stdout=subprocess.PIPE, stderr=subprocess.STDOUT, env=env, cwd=outdir)
     finally:
         slots.release(job.weight)
     return cmd, p.returncode, p.stdout.decode('utf-8', 'replace'), time.time() - t0
